@@ -940,18 +940,15 @@ class DFA:
                 irrelevant_values = set()
                 if DFTransition.Else in relevant_values:
                     relevant_values.update(local_else_meaning)
-                target = sub_state[relevant_values]
-                if target is None:
-                    targets = set()
-                    for value in relevant_values:
-                        v = sub_state[value]
-                        if v is None:
-                            irrelevant_values.add(value)
-                            continue
-                        targets.add(v)
-                    relevant_values -= irrelevant_values
-                else:
-                    targets = {target} 
+                # look every value up on its own: a set which only partly overlaps one of our transitions is not handled by a single transition
+                targets = set()
+                for value in relevant_values:
+                    v = sub_state[value]
+                    if v is None:
+                        irrelevant_values.add(value)
+                        continue
+                    targets.add(v)
+                relevant_values -= irrelevant_values
 
                 # targets is the set of all (potentially) conflicting transitions
 
